@@ -452,6 +452,8 @@ type OnCall struct {
 	Ensures  []*Clause
 	Havoc    bool
 	NoHavoc  bool
+	Site     int      // 0 = every call site; k = only the k-th call site (source order)
+	Modifies []string // field paths rooted at a Go variable that the callee may change even though they are `stable`
 	Returns  SExpr
 	Line     int
 }
@@ -762,6 +764,12 @@ func (db *ContractDB) loadFile(path, pkgPath string) {
 				}
 				curLoop.Decreases, curLoop.DecSrc = e, rest
 			case "modifies":
+				if curOn != nil {
+					for _, f := range strings.FieldsFunc(rest, func(r rune) bool { return r == ',' || r == ' ' }) {
+						curOn.Modifies = append(curOn.Modifies, f)
+					}
+					continue
+				}
 				if strings.TrimSpace(rest) == "*" {
 					cur.ModAll = true
 					continue
@@ -982,6 +990,13 @@ func parseOnCall(rest string) (*OnCall, error) {
 			}
 		}
 		r2 = strings.TrimSpace(r2[:k])
+	}
+	// "F#k": only the k-th call site of F
+	if k := strings.LastIndex(r2, "#"); k > 0 {
+		if n, err := strconv.Atoi(r2[k+1:]); err == nil && n > 0 {
+			oc.Site = n
+			r2 = r2[:k]
+		}
 	}
 	oc.Callee = r2
 	if kind == "go" {
